@@ -1012,6 +1012,31 @@ impl<'tcx> Cx<'tcx> {
                     ("fields", J::Arr(fields)),
                 ])
             }
+            ty::Adt(adt, args) if adt.is_struct() && depth < 6 => {
+                // plain structs (a promoted `0..=1`, a `const` of a crate-local struct): field by field
+                let Ok(layout) = tcx.layout_of(env.as_query_input(ty)) else {
+                    return J::obj(vec![("opaque", J::str("layout"))]);
+                };
+                let v = adt.non_enum_variant();
+                let mut fields = Vec::new();
+                let mut names = Vec::new();
+                let mut tys = Vec::new();
+                for (i, f) in v.fields.iter().enumerate() {
+                    let fty = f.ty(tcx, args);
+                    let fty = tcx.try_normalize_erasing_regions(env, rustc_middle::ty::Unnormalized::new_wip(fty)).unwrap_or(fty);
+                    let fo = layout.fields.offset(i).bytes();
+                    let x = self.read_mem(alloc, off + fo, fty, None, depth + 1);
+                    names.push(J::str(f.name.to_string()));
+                    tys.push(J::str(format!("{}", fty)));
+                    fields.push(x);
+                }
+                J::obj(vec![
+                    ("struct", J::str(tcx.def_path_str(adt.did()))),
+                    ("names", J::Arr(names)),
+                    ("tys", J::Arr(tys)),
+                    ("fields", J::Arr(fields)),
+                ])
+            }
             _ => J::obj(vec![("opaque", J::str(format!("{}", ty)))]),
         }
     }
